@@ -24,7 +24,7 @@ print(f"""You are helping to test a verification tool for the open-source Python
 
 ## Demonstration
 Write /tmp/seed_r2_{pid}/demo.py: a self-contained program (it may import TidalPy, numpy, scipy, mpmath/sympy if available in /venv) that checks the property on inputs including the ones that manifest your change, using an INDEPENDENT reference (the mathematical definition, a conservation law, a fresh object, etc. - not numbers stored from the original code if avoidable). It must print PASS and exit 0 on the original tree, and print FAIL (with the failing cases) and exit 1 on the changed tree. It will be run as `cd <tree> && PYTHONPATH=<tree> /venv/bin/python seed_out/demo.py` where it has been copied to <tree>/seed_out/demo.py - so make it locate the tree via PYTHONPATH / its parent directory, never via a hard-coded /tmp path.
-Verify both outcomes yourself: run the demo on the unmodified tree (use `git stash` or `git diff > patch; git checkout -- .` in your worktree) and on the changed tree.
+Verify both outcomes yourself: run the demo on the unmodified tree (use `git diff > /tmp/<your output dir>/patch.diff; git checkout -- .` and later `git apply` it again; NEVER use `git stash`: the stash is shared by all worktrees of the repository and other people work in sibling worktrees) and on the changed tree.
 
 ## Deliverables in /tmp/seed_r2_{pid}/
 - patch.diff : output of `git -C /tmp/wt_r2_{pid} diff` (must apply with `git apply` to a clean checkout of the same commit; only tracked source files, no new untracked files unless included via `git add -N` so they show in the diff).
